@@ -8,13 +8,14 @@ python3 - <<'PY'
 import sys
 sys.path.insert(0, "lib")
 import vcheck
-ok, out, vh = vcheck.build_harness()
+ok, out, _ = vcheck.build_harness()
 print(out[-2000:])
 if not ok:
     sys.exit(1)
 # regenerate every table, then build the full development
 for s in vcheck.all_specs():
     if s.get("tables"):
+        _, _, vh = vcheck.build_harness(s)
         okt, outt, ch = vcheck.gen_tables(s, vh)
         if not okt:
             print(outt[-2000:]); sys.exit(1)
